@@ -101,7 +101,7 @@ func c08Wire(t *rm.Type, w []byte) *ev.Violation {
 }
 
 func runC08(r *ev.Run, thorough bool) {
-	r.Rule = "per type: reference wires of V1 incl. non-canonical forms (over-long text cut, pad bytes everywhere, all-pad fields, stale computed fields) + every 1-byte substitution from {00,01,20,30,7F,80,FF}" + map[bool]string{true: " on every seed + every 2-byte substitution on the two base wires", false: " on the two base wires"}[thorough] + "; for each wire the library accepts: Encode(Decode(w)) == consumed bytes, differences allowed only inside self-computed fields which must then be correct; distinct = (type,wire); non-trivial = accepted by the decoder"
+	r.Rule = "per type: reference wires of V1 incl. non-canonical forms (over-long text cut, pad bytes everywhere, all-pad fields, stale computed fields) + every 1-byte substitution from {00,01,20,30,7F,80,FF}" + map[bool]string{true: " on every seed + every 2-byte substitution on the two base wires", false: " on the two base wires"}[thorough] + "; plus every strict prefix of the three base wires (Z, D, L); for each wire the library accepts: Encode(Decode(w)) == consumed bytes, differences allowed only inside self-computed fields which must then be correct; distinct = (type,wire); non-trivial = accepted by the decoder"
 	r.Assume("wires whose count/length prefix exceeds the input are explored by C09/C10 instead (resource-limited workers)")
 	parTypes(r, bind.Types, func(t *rm.Type, l *ev.Local) {
 		a, rj := int64(0), int64(0)
@@ -127,6 +127,26 @@ func runC08(r *ev.Run, thorough bool) {
 			}
 			return true
 		})
+		// every strict prefix of the base wires: a decoder that accepts a truncated message must still re-encode to
+		// exactly the bytes it consumed (it cannot, so acceptance itself shows up here as well as in C11)
+		for _, base := range []*rm.Value{rm.Zero(t), valenum.Distinct(t), valenum.Long(t)} {
+			w, err := rm.EncodeBytes(base)
+			if err != nil {
+				continue
+			}
+			for cut := 0; cut < len(w); cut++ {
+				key := ev.H(t.QName() + "cut" + string(w[:cut]))
+				l.Eval(key, false)
+				l.States[key] = struct{}{}
+				l.Transitions += 2
+				l.Traces++
+				if viol := c08Wire(t, w[:cut]); viol != nil {
+					viol.Detail = fmt.Sprintf("first %d of %d bytes of a valid encoding: ", cut, len(w)) + viol.Detail
+					r.Violate(viol)
+					break
+				}
+			}
+		}
 		r.Add("accepted_by_reference", a)
 		r.Add("rejected_by_reference", rj)
 	})
